@@ -109,6 +109,11 @@ func runC03(c *Ctx) {
 		}
 	}
 
+	c03CallbackOwners(c)
+	c.Rule("C03-D8", "a decoded header owns its storage (shared with C09-D12): every pointer field of the PacketHeader built in parser/json (the ack id) is set to the address of a variable of that call, nil, or a pointer "+
+		"the caller passed — never to a field of the Parser or a package-level variable, which the next packet of the connection overwrites while this packet's handlers (dispatched on their own goroutines) still read it", 1)
+	headerOwnsItsStorage(c, "C03-D8")
+
 	c.Rule("C03-D5", "retry queue: the application's callback of a queued emit is invoked, and the packet leaves the queue, only on a final outcome — the reply, or the failure of the last allowed try (tryCount > Retries) — never on the failure of an intermediate try (the packet is re-sent then and will report again)", 3)
 	{
 		top := p.Fn("sio", "clientPacketQueue.addToQueue")
